@@ -299,7 +299,8 @@ func C06(p *core.Program, r *core.Report) {
 				"nobase": q(`$1 == nil`),
 				// a reference that starts with '#' (spelled with HasPrefix or as a test of the first
 				// byte; the empty string has been returned before)
-				"fragment": `^(strings\.HasPrefix\(\$0,"#"\)|\$0\[0\] == 35)$`,
+				// spellings of "starts with #" (the string is known to be non-empty at that point)
+				"fragment": `^(strings\.HasPrefix\(\$0,"#"\)|\$0\[0\] == 35|\$0\[:1\] == "#")$`,
 				"data":     q(`strings.HasPrefix($0,"data:")`),
 				"js":       q(`strings.HasPrefix($0,"javascript:")`),
 				"uri.ok":   q(pr + `#1 == nil`),
